@@ -1,5 +1,7 @@
 import FxVerif.Proofs.C20Fee
 import FxVerif.Proofs.C20Dec
+import FxVerif.Proofs.C20Args
+import FxVerif.Model.C20Run
 /-!
 # C20 — hostile input never crashes a node and cannot dodge the minimum fee
 
@@ -315,5 +317,219 @@ theorem isValidChannelID_format (s : List Char) (h : isValidChannelID s = true) 
         decide_eq_true_eq] at h
       exact ⟨h.1.1.1, h.1.1.2, h.1.2, h.2⟩
   · simp at h
+
+/-! ## wiring read off the AST: ante chain order, routing, node configuration, `ValidateModuleName`, `Byte32ToString` -/
+section Wiring
+
+def chainIdx (pfx : String) : Option Nat := cosmosAnteChain.findIdx? fun d => pfx.toList.isPrefixOf d.toList
+
+set_option maxRecDepth 8192 in
+/-- every transaction without extension options runs, in this order: reject embedded MsgEthereumTx → set up the gas meter →
+ValidateBasic → **DeductFeeDecorator with the node's `TxFeeChecker`** → signature verification; the fee decorator occurs
+exactly once and is handed `options.TxFeeChecker`, which `app.go` sets to `NewCheckTxFeees(<configured types>, <allowance>).Check` -/
+theorem cosmos_chain_checks_fee_before_signatures :
+    chainIdx "ethante.RejectMessagesDecorator" = some 0 ∧
+    (∃ a b c d, chainIdx "ante.NewSetUpContextDecorator(" = some a ∧ chainIdx "ante.NewValidateBasicDecorator(" = some b ∧
+      chainIdx "ante.NewDeductFeeDecorator(" = some c ∧ chainIdx "ante.NewSigVerificationDecorator(" = some d ∧ a < b ∧ b < c ∧ c < d) ∧
+    (cosmosAnteChain.filter fun d => "ante.NewDeductFeeDecorator(".toList.isPrefixOf d.toList) =
+      ["ante.NewDeductFeeDecorator(options.AccountKeeper, options.BankKeeper, options.FeegrantKeeper, options.TxFeeChecker)"] ∧
+    appWiresFeeChecker = true ∧ checkDelegates = true := by
+  refine ⟨by decide, ⟨2, 4, 8, 13, by decide, by decide, by decide, by decide, by decide, by decide, by decide⟩, by decide, by decide, by decide⟩
+
+/-- `NewAnteHandler` routes: the Ethereum extension option to the EVM handler, any other extension option is refused, a
+transaction without extension options takes the chain above — there is no third way into the mempool -/
+theorem ante_routing_total :
+    anteRouting = ["/ethermint.evm.v1.ExtensionOptionsEthereumTx=>eth", "default=>reject", "none=>cosmos"] := by decide
+
+/-- the pattern the model of `ValidateModuleName` was written for is the one in the source, anchored at both ends, and the
+function returns an error exactly when it does not match; `Byte32ToString` has the modelled shape -/
+theorem module_name_pattern :
+    moduleNameRegex = "[a-zA-Z][a-zA-Z0-9/]{1,32}" ∧ moduleNameAnchored = true ∧ moduleNameErrIffNoMatch = true ∧
+      byte32ToStringShape = true := by decide
+
+/-- what `ValidateModuleName` accepts: 2–33 bytes, a letter first, then letters, digits and `/` only — in particular no
+blank, no control byte, no byte ≥ 0x80 reaches a route lookup or a store key -/
+theorem validateModuleName_spec (bs : List Nat) :
+    validateModuleName bs = true ↔
+      ∃ h t, bs = h :: t ∧ isLetterB h = true ∧ 1 ≤ t.length ∧ t.length ≤ 32 ∧ ∀ b ∈ t, isAlnumSlashB b = true := by
+  cases bs with
+  | nil => simp [validateModuleName]
+  | cons h t =>
+    simp only [validateModuleName, Bool.and_eq_true, decide_eq_true_eq, List.all_eq_true, List.cons.injEq]
+    constructor
+    · rintro ⟨⟨⟨h1, h2⟩, h3⟩, h4⟩
+      exact ⟨h, t, ⟨rfl, rfl⟩, h1, h2, h3, h4⟩
+    · rintro ⟨h', t', ⟨rfl, rfl⟩, h1, h2, h3, h4⟩
+      exact ⟨⟨⟨h1, h2⟩, h3⟩, h4⟩
+
+theorem validateModuleName_bytes (bs : List Nat) (h : validateModuleName bs = true) :
+    2 ≤ bs.length ∧ bs.length ≤ 33 ∧ ∀ b ∈ bs, 47 ≤ b ∧ b ≤ 122 := by
+  obtain ⟨hd, tl, rfl, h1, h2, h3, h4⟩ := (validateModuleName_spec bs).1 h
+  refine ⟨by simp; omega, by simp; omega, ?_⟩
+  intro b hb
+  have hr : ∀ x, isAlnumSlashB x = true → 47 ≤ x ∧ x ≤ 122 := by
+    intro x hx
+    simp only [isAlnumSlashB, isLetterB, Bool.or_eq_true, Bool.and_eq_true, decide_eq_true_eq, beq_iff_eq] at hx
+    omega
+  rcases List.mem_cons.1 hb with rfl | hb
+  · exact hr _ (by simp [isAlnumSlashB, h1])
+  · exact hr _ (h4 b hb)
+
+example : validateModuleName [101, 116, 104] = true := by decide   -- "eth"
+example : validateModuleName [101] = false := by decide
+
+theorem dropWhile_replicate_zero (k : Nat) (l : List Nat) :
+    (List.replicate k 0 ++ l).dropWhile (· == 0) = l.dropWhile (· == 0) := by
+  induction k with
+  | zero => simp
+  | succ n ih => simp [List.replicate_succ, ih]
+
+/-- `Byte32ToString ∘ StrToByte32 = id` on every string of at most 32 bytes that does not end in a zero byte (the
+`_target` of `crossChain` / `bridgeCoinAmount` is decoded this way before `ParseFxTarget`) -/
+theorem byte32ToString_strToByte32 (bs out : List Nat) (h : strToByte32 bs = .ok out) (hl : bs.getLast? ≠ some 0) :
+    byte32ToString out = bs := by
+  unfold strToByte32 at h
+  split at h
+  · cases h
+  · simp only [Except.ok.injEq] at h
+    subst h
+    unfold byte32ToString
+    rw [List.reverse_append, List.reverse_replicate, dropWhile_replicate_zero]
+    cases hr : bs.reverse with
+    | nil =>
+      have : bs = [] := by simpa using hr
+      simp [this]
+    | cons x xs =>
+      have hx : bs.getLast? = some x := by
+        rw [List.getLast?_eq_head?_reverse, hr]; rfl
+      have hne : x ≠ 0 := by
+        intro h0; apply hl; rw [hx, h0]
+      have : (x :: xs).dropWhile (· == 0) = x :: xs := by
+        simp [hne]
+      rw [this, ← hr, List.reverse_reverse]
+
+/-- the decoded target never ends in a zero byte -/
+theorem byte32ToString_no_trailing_zero (bs : List Nat) : (byte32ToString bs).getLast? ≠ some 0 := by
+  unfold byte32ToString
+  rw [List.getLast?_reverse]
+  cases h : bs.reverse.dropWhile (· == 0) with
+  | nil => simp
+  | cons x xs =>
+    have := List.head_dropWhile_not (p := (· == 0)) (l := bs.reverse) (by rw [h]; simp)
+    simp only [h, List.head_cons, beq_eq_false_iff_ne, ne_eq] at this
+    simpa using this
+
+end Wiring
+
+/-! ## precompile `Run`: the decoded arguments satisfy what every construct inside `Run` needs
+
+`Gen/C20Run.lean` (typed translator) is regenerated on every run: the `Validate` body of every argument struct as a program,
+the method tables of both precompiles, and the inventory of potentially panicking constructs inside every `Run` (and the
+functions it calls) with the requirement each one puts on the decoded arguments. -/
+section Run
+open FxVerif.Model.C20Args FxVerif.Gen.C20Run FxVerif.Model.C20Run FxVerif.Proofs.C20Args
+
+/-- the typed translator understood every `Validate` body; `ParseMethodArgs` ends in `Validate()`; every registered method
+decodes its arguments first (`args, err := m.UnpackInput(contract.Input); if err != nil { return }`) into an args struct
+whose `Validate` was translated -/
+theorem run_translator_complete :
+    FxVerif.Gen.C20Run.unknownConstructs = [] ∧ parseMethodArgsValidates = true ∧
+      methods.all (fun m => m.unpackFirst && m.parses && (findArgs argsTypes m.argsType).isSome) = true ∧
+      methods.length ≥ 20 := by decide
+
+set_option maxRecDepth 8192 in
+/-- **obligation over the regenerated table**: every potentially panicking construct inside a precompile method's `Run`, the
+in-package functions it reaches and the keeper methods it calls directly is locally guarded, or its requirement on the
+decoded arguments is entailed by the method's own `Validate` (regenerated program), or it is on the reviewed list.  Removing
+or weakening a `Validate` check that `Run` relies on, or adding an unguarded construct, breaks this proof. -/
+theorem run_sites_ok : runSites.all runSiteOk = true := by decide
+
+set_option maxRecDepth 8192 in
+/-- every requirement in the table is entailed by the corresponding `Validate` program (ABI facts allowed) -/
+theorem all_reqs_entailed : reqSites.all (fun x => entails true x.2.2 x.2.1) = true := by decide
+
+set_option maxRecDepth 8192 in
+/-- ABI decoding is needed only for size bounds of single uint256 inputs and for array elements: every nil, sign, length
+and sum requirement is established by `Validate` ALONE (even for a hand-built struct with nil fields) -/
+theorem needsAbiOnlyForBounds : reqSites.all (fun x => x.2.1.isBound || entails false x.2.2 x.2.1) = true := by decide
+
+theorem mem_reqSites {s : RunSite} {r : Req} (hs : s ∈ runSites) (hr : s.req = some r) :
+    (s, r, progOf argsTypes s.argsType) ∈ reqSites := by
+  simp only [reqSites, List.mem_filterMap]
+  exact ⟨s, hs, by simp [hr]⟩
+
+/-- **`Validate` implies `Run` is safe** — for every site of the regenerated inventory that carries a requirement, every
+environment (decoded argument struct) that went through ABI decoding and on which the method's `Validate` returns nil
+satisfies the requirement: `args.Amounts[i]` is in range for every `i` ranging over `args.Tokens`, `args.TxID` is not nil
+where `Run` dereferences it, `amount + fee` fits `sdkmath.Int` where `Run` converts it, … -/
+theorem validate_implies_run_safe (s : RunSite) (hs : s ∈ runSites) (r : Req) (hr : s.req = some r)
+    (env : Env) (habi : AbiDecoded env) (hok : run env (progOf argsTypes s.argsType) = .ok) : r.holds env := by
+  have h := List.all_eq_true.1 all_reqs_entailed _ (mem_reqSites hs hr)
+  exact entails_sound env true (fun _ => habi) _ r h hok
+
+/-- the index form, without any assumption on how the struct was produced: if `Validate` returns nil then every index
+expression of `Run` whose bound comes from another field is in range (`len(args.Tokens) ≤ len(args.Amounts)` for
+`args.Amounts[i]`, `i` ranging over `args.Tokens`) -/
+theorem validate_implies_index_safe (s : RunSite) (hs : s ∈ runSites) (a b : String) (hr : s.req = some (.lenLe a b))
+    (env : Env) (hok : run env (progOf argsTypes s.argsType) = .ok) : env.len a ≤ env.len b := by
+  have h := List.all_eq_true.1 needsAbiOnlyForBounds _ (mem_reqSites hs hr)
+  simp only [Req.isBound, Bool.false_or] at h
+  exact entails_sound env false (fun h => by cases h) _ _ h hok
+
+/-- the same for every nil / sign / sum requirement (no ABI assumption) -/
+theorem validate_implies_run_safe_noabi (s : RunSite) (hs : s ∈ runSites) (r : Req) (hr : s.req = some r)
+    (hb : r.isBound = false) (env : Env) (hok : run env (progOf argsTypes s.argsType) = .ok) : r.holds env := by
+  have h := List.all_eq_true.1 needsAbiOnlyForBounds _ (mem_reqSites hs hr)
+  simp only [hb, Bool.false_or] at h
+  exact entails_sound env false (fun h => by cases h) _ r h hok
+
+/-- the inventory is not vacuous: it contains the index site of `bridgeCall` with its length requirement, and the
+`amount + fee` conversion of `crossChain` with its size requirement -/
+theorem run_inventory_has_key_sites :
+    runSites.any (fun s => s.recv == "BridgeCallMethod" && s.meth == "Run" && s.kind == "index" &&
+      s.req == some (.lenLe "Tokens" "Amounts")) = true ∧
+    runSites.any (fun s => s.recv == "CrossChainMethod" && s.meth == "Run" && s.kind == "bigint256" &&
+      s.req == some (.sumFits256 "Amount" "Fee")) = true ∧
+    runSites.any (fun s => s.recv == "CancelSendToExternalMethod" && s.kind == "nilarg" && s.req == some (.nonNil "TxID")) = true := by
+  decide
+
+/-- **`Validate` never panics** on an ABI-decoded struct, for every argument struct of both precompiles -/
+theorem validate_never_panics (t : ArgsType) (ht : t ∈ argsTypes) (env : Env) (habi : AbiDecoded env) :
+    run env t.prog ≠ .panic := by
+  have h : argsTypes.all (fun t => nilSafe true t.prog) = true := by decide
+  exact nilSafe_sound env true (fun _ => habi) _ (List.all_eq_true.1 h t ht)
+
+/-- … and, except for `BridgeCallArgs` (whose `args.Value.Sign()` has no nil test in front of it), not even on a hand-built
+struct with nil big-integer fields: every other dereference is preceded by its `== nil ||` test -/
+theorem validate_never_panics_on_nil (t : ArgsType) (ht : t ∈ argsTypes) (hn : t.name ≠ "BridgeCallArgs") (env : Env) :
+    run env t.prog ≠ .panic := by
+  have h : argsTypes.all (fun t => t.name == "BridgeCallArgs" || nilSafe false t.prog) = true := by decide
+  have h2 := List.all_eq_true.1 h t ht
+  simp only [Bool.or_eq_true, beq_iff_eq] at h2
+  rcases h2 with h2 | h2
+  · exact absurd h2 hn
+  · exact nilSafe_sound env false (fun h => by cases h) _ h2
+
+set_option maxRecDepth 8192 in
+/-- no stale review entries for `Run` sites -/
+theorem reviewed_run_entries_live :
+    reviewedRun.all (fun r => runSites.any fun s => r.covers s && !s.guarded && s.req.isNone) = true := by decide
+
+-- the check distinguishes: a `Validate` with an early `return nil` in front of the length comparison (the shape of a
+-- "pure message call needs no amounts" shortcut) no longer entails the index requirement, and an environment exists
+-- on which it returns nil with more tokens than amounts
+example : entails true
+    [.ifRet (.atom (.lenK "Amounts" .eq 0)) false, .ifRet (.atom (.lenRel "Tokens" .ne "Amounts")) true, .ret false]
+    (.lenLe "Tokens" "Amounts") = false := by decide
+example : entails false
+    [.ifRet (.atom (.lenRel "Tokens" .ne "Amounts")) true, .ifRet (.atom (.lenK "Amounts" .eq 0)) false, .ret false]
+    (.lenLe "Tokens" "Amounts") = true := by decide
+example : ∃ env : Env,
+    run env [.ifRet (.atom (.lenK "Amounts" .eq 0)) false, .ifRet (.atom (.lenRel "Tokens" .ne "Amounts")) true, .ret false] = .ok ∧
+      ¬ env.len "Tokens" ≤ env.len "Amounts" :=
+  ⟨{ len := fun f => if f == "Tokens" then 1 else 0, big := fun _ => some 0, elemsOk := fun _ => true, zeroAddr := fun _ => false,
+     emptyStr := fun _ => false, zeroArr := fun _ => false, ext := fun _ _ => false, num := fun _ => 0 }, by decide⟩
+
+end Run
 
 end FxVerif.Props.C20
